@@ -760,7 +760,8 @@ class LeastSquare:
         QG = GGinv - np.dot(GGinv, np.dot(GT, LG))
         QF = np.dot(GGinv, np.dot(GT, LLinv))
         T = np.dot(QG, GF) + np.dot(QF, F)
-        E = (FF - 2 * np.dot(T.T, GF) + np.dot(T.T, np.dot(GG, T))) / 2
+        E = FF - np.dot(T.T, GF) - np.dot(GF.T, T) + np.dot(T.T, np.dot(GG, T))
+        E = E / 2
         return totuple(T), totuple(E)
 
 
